@@ -16,7 +16,10 @@ TRUSTED = ['T1 pyvc model of Python (DESIGN 3)', 'T5 cast of a native value of t
 ASSUMPTIONS = ['consumers drain resource streams in order (rely P-seq); discharged for the driver safe_process here',
                'header_print / table_print / callback user callables do not touch the rows']
 
+from contracts import C10 as _K10   # noqa: E402  (ResourceMatcher: the contract every selector-taking step is checked against)
+
 ITEMS = [
+    _K10._mk_matcher_item(),
     Item('printer.func', S.sym_printer, [], 'dataflows/processors/printer.py::printer.func'),
     [i for i in K10.ITEMS if i.name == 'printer.step'][0],
     Item('finalizer', S.sym_finalizer, [], 'dataflows/processors/finalizer.py::finalizer.get_iterator.func'),
